@@ -541,6 +541,11 @@ pub fn run_batch_history(dir: &Path, p: &SampledParams) -> Result<BatchHistory, 
                 for b in 1..=p.batches {
                     let val = format!("{w}:{b}:{}", "x".repeat(((b * 37 + w as u64 * 11) % 120) as usize)).into_bytes();
                     let r: Result<(), String> = match db {
+                        // a writer with a single key uses the plain single-operation path
+                        crate::real::DbH::Plain(_) if keys[w].len() == 1 => {
+                            let (ks, k) = &keys[w][0];
+                            kss[*ks].ks.insert(k.clone(), val.clone()).map_err(|e| format!("{e:?}"))
+                        }
                         crate::real::DbH::Plain(d) => {
                             let mut bt = d.batch();
                             for (ks, k) in &keys[w] {
@@ -616,6 +621,16 @@ pub fn run_batch_history(dir: &Path, p: &SampledParams) -> Result<BatchHistory, 
                                 }
                                 seen.push(row);
                             }
+                            // the same view, read again: it must not have changed
+                            for w in 0..p.writers {
+                                for (j, (ks, k)) in keys[w].iter().enumerate() {
+                                    let v = snap.get(&kss[*ks].ks, k).map_err(|e| format!("using a live snapshot failed: {e:?}"))?;
+                                    let b = parse_b(w, v.as_deref());
+                                    if b != seen[w][j] {
+                                        return Err(format!("a live {kind} changed: key {} of writer {w} first showed batch/value {} and then {b}", String::from_utf8_lossy(k), seen[w][j]));
+                                    }
+                                }
+                            }
                         }
                         Ok(seen)
                     })();
@@ -661,7 +676,7 @@ pub fn shard_c06(tier: &str, seed: u64, shard: u32, cases: u32, exclude: &BTreeS
     silence_panics();
     let base = scratch_root().join(format!("c06h{shard}"));
     std::fs::create_dir_all(&base).ok();
-    let n_hist = if tier == "thorough" { cases / 40 + 4 } else { cases / 60 + 2 };
+    let n_hist = if tier == "thorough" { cases / 10 + 4 } else { cases / 15 + 2 };
     let mut rng = seed ^ (u64::from(shard) << 37) ^ 0xc06c_06c0;
     let mut next = move || {
         rng ^= rng << 13;
@@ -675,7 +690,7 @@ pub fn shard_c06(tier: &str, seed: u64, shard: u32, cases: u32, exclude: &BTreeS
             writers: 2 + (next() % 3) as usize,
             readers: 2 + (next() % 2) as usize,
             keyspaces: 1 + (next() % 3) as usize,
-            keys_per_writer: 2 + (next() % 3) as usize,
+            keys_per_writer: 1 + (next() % 4) as usize,
             batches: 40 + next() % 40,
             workers: 1 + (next() % 3) as usize,
             // known finding C06-KF1: with the exclusion active no background version change may
@@ -1210,6 +1225,62 @@ pub fn threaded_c08(dir: &Path, seed: u64) -> Result<bool, String> {
         let want = committed[c].load(Ordering::SeqCst) as u64;
         if got != want {
             return Err(format!("single-writer transactions lost an update: counter ctr{c} = {got} after {want} committed increments from {threads} threads"));
+        }
+    }
+    // blocked-second-writer probe (positive evidence only): while one write transaction is open,
+    // no other write transaction and no single-operation helper may complete
+    for kind in 0..6u8 {
+        let phase = AtomicUsize::new(0);
+        let bad: Mutex<Option<String>> = Mutex::new(None);
+        std::thread::scope(|s| {
+            let (db, ks, phase) = (&db, &ks, &phase);
+            s.spawn(move || {
+                let mut tx = db.write_tx();
+                phase.store(1, Ordering::SeqCst);
+                std::thread::sleep(std::time::Duration::from_millis(25));
+                tx.insert(ks, "probe", "a");
+                phase.store(2, Ordering::SeqCst);
+                let _ = tx.commit();
+            });
+            let bad = &bad;
+            s.spawn(move || {
+                while phase.load(Ordering::SeqCst) == 0 {
+                    std::thread::yield_now();
+                }
+                let what = match kind {
+                    0 => {
+                        let _ = ks.insert("probe2", "b");
+                        "SingleWriterTxKeyspace::insert"
+                    }
+                    1 => {
+                        let _ = ks.remove("probe2");
+                        "SingleWriterTxKeyspace::remove"
+                    }
+                    2 => {
+                        let _ = ks.fetch_update("probe2", |_| Some("c".as_bytes().into()));
+                        "SingleWriterTxKeyspace::fetch_update"
+                    }
+                    3 => {
+                        let _ = ks.update_fetch("probe2", |_| Some("d".as_bytes().into()));
+                        "SingleWriterTxKeyspace::update_fetch"
+                    }
+                    4 => {
+                        let _ = ks.take("probe2");
+                        "SingleWriterTxKeyspace::take"
+                    }
+                    _ => {
+                        let tx2 = db.write_tx();
+                        drop(tx2);
+                        "a second write_tx()"
+                    }
+                };
+                if phase.load(Ordering::SeqCst) == 1 {
+                    *bad.lock().unwrap() = Some(format!("{what} completed while another write transaction of the single-writer database was still open"));
+                }
+            });
+        });
+        if let Some(e) = bad.into_inner().unwrap() {
+            return Err(e);
         }
     }
     drop(ks);
